@@ -404,11 +404,28 @@ def checkC19 (p : PProject) (impl : Json) : PropOut := Id.run do
   let want := Json.mkObj [("repeats", Json.arr (reps.map fun _ => Json.str "same").toArray), ("fresh", "same"), ("stable", true)]
   return { model := want, implView := view, implFails := fails, nontrivial := true, notes := [s!"d:rounds={reps.length}"] }
 
+/-- C15 at project level: which receivers carry a `route-conflict` warning = which routes `Gleece.Paths.findConflicts`
+    flags on the FULL templates (controller prefix + method route) of ALL routes of the project — whatever other
+    diagnostics their controllers have -/
+def checkC15 (p : PProject) (impl : Json) : PropOut := Id.run do
+  if (jstrD impl "setupErr").startsWith "pipeline: encountered" then
+    return { model := Json.str "uncompilable-source", implView := Json.str "uncompilable-source", nontrivial := false, notes := ["d:uncompilable-source"] }
+  if jstrD impl "validateErr" ≠ "" || jstrD impl "graphErr" ≠ "" || jstrD impl "setupErr" ≠ "" || jstrD impl "configErr" ≠ "" then
+    return { model := Json.str "not-validated", implView := Json.str "not-validated", nontrivial := false, notes := ["d:not-validated"] }
+  let md := dedupConflicts (conflictDiags p)
+  let idg := dedupConflicts ((implDiags impl).filter (·.code = "route-conflict"))
+  let missing := md.filter fun d => !idg.contains d
+  let extra := idg.filter fun d => !md.contains d
+  let fails := (missing.map fun d => s!"overlap-not-reported:{d.controller}.{d.entity}") ++ (extra.map fun d => s!"conflict-reported-without-overlap:{d.controller}.{d.entity}")
+  return { model := Json.arr (sortDiags md).toArray, implView := Json.arr (sortDiags idg).toArray, implFails := fails,
+           nontrivial := !md.isEmpty, notes := [s!"d:conflicting-receivers={md.length}"] }
+
 def projHandler : Handler := fun prop input impl => do
   let p := parseProject input
   let implJ := impl.getD Json.null
   let out : PropOut ← match prop with
     | "C10" => pure (checkC10 p implJ)
+    | "C15" => pure (checkC15 p implJ)
     | "C18" => pure (checkC18 p implJ)
     | "C13" => pure (checkC13 p implJ)
     | "C19" => pure (checkC19 p implJ)
